@@ -2,6 +2,7 @@ package main
 
 import (
 	"bufio"
+	"sync"
 	"time"
 	"math"
 	"os"
@@ -25,19 +26,67 @@ type Term struct {
 	sort  Sort
 	isC   bool
 	c     uint64 // constant value (masked), bool: 0/1
-	id    int
+	sym   bool   // a free symbol (declared to the solver on first use)
+	inner *Term  // operand of a "(not x)" term
 }
 
-var termTab = map[string]*Term{}
+// The term table is shared by all worker goroutines (terms are immutable once published).
+const termShards = 256
 
-func mk(s string, sort Sort) *Term {
-	if t, ok := termTab[s]; ok {
-		return t
+type termShard struct {
+	mu sync.RWMutex
+	m  map[string]*Term
+}
+
+var termTab [termShards]termShard
+
+func init() {
+	for i := range termTab {
+		termTab[i].m = map[string]*Term{}
 	}
-	t := &Term{s: s, sort: sort, id: len(termTab)}
-	termTab[s] = t
+}
+
+func shardOf(s string) *termShard {
+	h := uint32(2166136261)
+	n := len(s)
+	// hash a bounded sample of the text: ends and length
+	for i := 0; i < n && i < 24; i++ {
+		h = (h ^ uint32(s[i])) * 16777619
+	}
+	for i := n - 1; i >= 0 && i >= n-24; i-- {
+		h = (h ^ uint32(s[i])) * 16777619
+	}
+	h ^= uint32(n) * 2654435761
+	return &termTab[(h>>8)%termShards]
+}
+
+func intern(t *Term) *Term {
+	sh := shardOf(t.s)
+	sh.mu.RLock()
+	e, ok := sh.m[t.s]
+	sh.mu.RUnlock()
+	if ok {
+		return e
+	}
+	sh.mu.Lock()
+	if e, ok := sh.m[t.s]; ok {
+		sh.mu.Unlock()
+		return e
+	}
+	sh.m[t.s] = t
+	sh.mu.Unlock()
 	return t
 }
+
+func termLookup(s string) *Term {
+	sh := shardOf(s)
+	sh.mu.RLock()
+	e := sh.m[s]
+	sh.mu.RUnlock()
+	return e
+}
+
+func mk(s string, sort Sort) *Term { return intern(&Term{s: s, sort: sort}) }
 
 func mask(w int) uint64 {
 	if w >= 64 {
@@ -54,37 +103,29 @@ func BV(v uint64, w int) *Term {
 	} else {
 		s = fmt.Sprintf("(_ bv%d %d)", v, w)
 	}
-	t := mk(s, Sort{Width: w})
-	t.isC, t.c = true, v
-	return t
+	return intern(&Term{s: s, sort: Sort{Width: w}, isC: true, c: v})
 }
+
+var termTrue = &Term{s: "true", sort: Sort{Bool: true}, isC: true, c: 1}
+var termFalse = &Term{s: "false", sort: Sort{Bool: true}, isC: true, c: 0}
 
 func Bool(b bool) *Term {
 	if b {
-		t := mk("true", Sort{Bool: true})
-		t.isC, t.c = true, 1
-		return t
+		return termTrue
 	}
-	t := mk("false", Sort{Bool: true})
-	t.isC, t.c = true, 0
-	return t
+	return termFalse
 }
 
-var nvars int
-var inputs []*Term
-
-func FreshFP(name string) *Term {
-	nvars++
-	n := fmt.Sprintf("%s_%d", name, nvars)
-	return mk(n, Sort{FP: true})
+func (x *Exec) FreshFP(name string) *Term {
+	x.nvars++
+	n := fmt.Sprintf("%s_%d", name, x.nvars)
+	return intern(&Term{s: n, sort: Sort{FP: true}, sym: true})
 }
 
 func FP(f float64) *Term {
 	b := math.Float64bits(f)
 	s := fmt.Sprintf("(fp #b%01b #b%011b #b%052b)", b>>63, (b>>52)&0x7ff, b&((1<<52)-1))
-	t := mk(s, Sort{FP: true})
-	t.isC, t.c = true, b
-	return t
+	return intern(&Term{s: s, sort: Sort{FP: true}, isC: true, c: b})
 }
 
 func (t *Term) f() float64 { return math.Float64frombits(t.c) }
@@ -166,11 +207,10 @@ func int64ToFP(a *Term, signed bool) *Term {
 	return mk("((_ to_fp_unsigned 11 53) RNE "+a.s+")", Sort{FP: true})
 }
 
-func FreshBV(name string, w int) *Term {
-	nvars++
-	n := fmt.Sprintf("%s_%d", name, nvars)
-	t := mk(n, Sort{Width: w})
-	return t
+func (x *Exec) FreshBV(name string, w int) *Term {
+	x.nvars++
+	n := fmt.Sprintf("%s%d_%d", name, w, x.nvars)
+	return intern(&Term{s: n, sort: Sort{Width: w}, sym: true})
 }
 
 func sext(v uint64, w int) int64 {
@@ -264,10 +304,10 @@ func Not(a *Term) *Term {
 	if a.isC {
 		return Bool(a.c == 0)
 	}
-	if strings.HasPrefix(a.s, "(not ") {
-		return termTab[a.s[5:len(a.s)-1]]
+	if a.inner != nil {
+		return a.inner
 	}
-	return mk("(not "+a.s+")", Sort{Bool: true})
+	return intern(&Term{s: "(not " + a.s + ")", sort: Sort{Bool: true}, inner: a})
 }
 
 func And(a, b *Term) *Term {
@@ -378,16 +418,16 @@ func (s *Solver) declare(t *Term) {
 	}
 }
 
-var symIndex = map[string]*Term{}
-
-func registerSym(t *Term) { symIndex[t.s] = t }
 
 func symbolsOf(s string) []*Term {
 	var out []*Term
 	f := strings.FieldsFunc(s, func(r rune) bool { return r == '(' || r == ')' || r == ' ' })
 	seen := map[string]bool{}
 	for _, w := range f {
-		if t, ok := symIndex[w]; ok && !seen[w] {
+		if seen[w] || w == "" || !(w[0] >= 'a' && w[0] <= 'z') || !strings.Contains(w, "_") {
+			continue
+		}
+		if t := termLookup(w); t != nil && t.sym {
 			seen[w] = true
 			out = append(out, t)
 		}
